@@ -37,9 +37,10 @@ type Prog struct {
 	SSA    *ssa.Program
 	SSAPkg map[string]*ssa.Package
 
-	noReturn  map[*ssa.Function]bool
-	exitCache map[*ssa.Function]relSet
-	srcFuncs []*ssa.Function // all functions (incl. anonymous) with source in repo packages
+	noReturn   map[*ssa.Function]bool
+	entryCache map[*ssa.Function]relSet
+	exitCache  map[*ssa.Function]relSet
+	srcFuncs   []*ssa.Function // all functions (incl. anonymous) with source in repo packages
 }
 
 // Load loads dir (the repository root) under cfg. Any load or type error is fatal:
